@@ -1999,7 +1999,9 @@ def c19_configs():
     out = []
     envs = DOC_ORDER + ["bogus", "", None]
     pres = [[]] + [[n] for n in DOC_ORDER] + [["zkifbellman", "snarkjs"], ["snarkjs", "zkifbellman"],
-                                               ["libsnarkgg", "nobackend"]]
+                                               ["libsnarkgg", "nobackend"],
+                                               # two derived modules of one family (they share the base module's field)
+                                               ["zkifbellman", "zkifbulletproofs"], ["zkifbulletproofs", "zkifbellman"]]
     loadables = []
     for ls in (0, 1):
         for fb in (0, 1):
@@ -2024,7 +2026,7 @@ class C19(TraceCheck):
     components = REAL_EXIT
     run_cap_s = 300
     rule = ("configuration = (PYSNARK_BACKEND in 8 names + unknown + unset) x (pre-imported backend modules: "
-            "none, each of the 8, three pairs in both orders) x (loadable subset of {libsnark stub, flatbuffers "
+            "none, each of the 8, five ordered pairs) x (loadable subset of {libsnark stub, flatbuffers "
             "stub, qaptools stub binaries}; unloadable ones fail with ImportError / missing executable) x "
             "ipython on/off; one fresh interpreter per configuration, followed by a three-statement traced "
             "program. oracle from the statement: pre-import wins; else a known name selects exactly that "
